@@ -66,6 +66,10 @@ class Sandbox:
         sb = self
 
         def fake_urlretrieve(url, path):
+            if getattr(sb, "fail_first", 0) > 0:         # scripted transient network failures before the download succeeds
+                sb.fail_first -= 1
+                from urllib.error import URLError
+                raise URLError("scripted transient failure")
             sb.downloads.append((url, path))
             with open(path, "w") as f:
                 f.write(SMALL_CSV)
@@ -75,6 +79,7 @@ class Sandbox:
             return sb.current.checksum if sb.current is not None else "0" * 64
         B.urlretrieve = fake_urlretrieve
         B._sha256 = fake_sha
+        B.time.sleep = lambda d: None          # the retry delay (restored on exit)
         # learn which remote is being fetched
         self.orig_fetch = B._fetch_remote
 
@@ -146,6 +151,10 @@ Definition rejected_obs (ds : string) (e : exn) : bool := match resolve ds with 
             remote_docs = [(f_, n_) for f_, n_ in doc_names() if f_ != "sandvine"]
             for fam, name in remote_docs[::11]:
                 cases.append({"name": name, "doc": name, "family": fam, "unpack": False, "env": True, "again": True, "other_fs": True})
+        # transient network failures (URLError) before the download succeeds: up to the documented default of 3 retries they are
+        # absorbed and the documented dataset is reachable all the same
+        for k_, (fam, name) in zip((1, 2, 3, 3), [(f_, n_) for f_, n_ in doc_names() if f_ != "sandvine"][5::17]):
+            cases.append({"name": name, "doc": name, "family": fam, "unpack": False, "env": True, "again": False, "transient": k_})
         # a data home whose parent directories do not exist yet either (TRAFFIC_WEAVER_DATA=<root>/site/user/...; first use)
         for fam, name in [(f_, n_) for f_, n_ in doc_names() if f_ != "sandvine"][::11]:
             cases.append({"name": name, "doc": name, "family": fam, "unpack": True, "env": True, "again": False, "nested_home": True})
@@ -166,6 +175,7 @@ Definition rejected_obs (ds : string) (e : exn) : bool := match resolve ds with 
         with warnings.catch_warnings():
             warnings.simplefilter("ignore")
             with Sandbox(use_env=c["env"], base=(Sandbox.other_filesystem() if c.get("other_fs") else None), nested=bool(c.get("nested_home"))) as sb:
+                sb.fail_first = int(c.get("transient", 0))
                 try:
                     r = load_dataset(c["name"], unpack_dataset_columns=c["unpack"])
                     if c["unpack"]:
